@@ -1,5 +1,5 @@
 from numpy import diagonal, diag, sqrt, log
-from numpy import array, eye, ndarray, zeros, atleast_1d
+from numpy import array, asarray, eye, ndarray, zeros, atleast_1d
 from numpy.random import random
 from numpy.linalg import cholesky, LinAlgError
 from scipy.linalg import solve_triangular
@@ -91,8 +91,10 @@ class GpRegressor:
         n_starts: int = None,
     ):
         # store the data
-        self.x = x if isinstance(x, ndarray) else array(x)
-        self.y = y if isinstance(y, ndarray) else array(y)
+        # the data are held as floating-point arrays, whatever numeric type they
+        # are given in: arithmetic on integer arrays wraps around / overflows
+        self.x = array(x, dtype=float)
+        self.y = array(y, dtype=float)
         # (a single data point must stay a length-1 array)
         self.y = atleast_1d(self.y.squeeze())
 
@@ -291,7 +293,7 @@ class GpRegressor:
                     """
                 )
 
-            return y_cov
+            return y_cov.astype(float)
 
         elif y_err is not None:
             # if y_err is given as a list or tuple, attempt conversion to an array
@@ -318,12 +320,12 @@ class GpRegressor:
                     """
                 )
 
-            return diag(y_err**2)
+            return diag(y_err.astype(float) ** 2)
         else:
             return zeros([self.n_points, self.n_points])
 
     def process_points(self, points: ndarray) -> ndarray:
-        x = points if isinstance(points, ndarray) else array(points)
+        x = asarray(points, dtype=float)
 
         if x.ndim <= 1 and self.n_dimensions == 1:
             x = x.reshape([x.size, 1])
